@@ -212,6 +212,60 @@ fn float_leg(g: &Grammar, tier: Tier) -> Acc {
             }
         }
     }
+    // exact midpoints between adjacent doubles, written out in full and nudged by a digit far
+    // beyond the 17th significant one (a parser that cuts the digit string rounds these wrongly):
+    // integers 2^j + (2k+1)*ulp/2 for j = 53..62, and 1 + (2k+1)*2^-53 with its 53-digit fraction
+    {
+        let mut mids: Vec<String> = Vec::new();
+        for j in 53..=62u32 {
+            let ulp = 1u128 << (j - 52);
+            for k in [0u128, 1, 2, 3, 1000, (1u128 << 51) - 1] {
+                let base = (1u128 << j) + k * ulp;
+                mids.push((base + ulp / 2).to_string());
+            }
+        }
+        let five53: u128 = 5u128.pow(53);
+        for k in [0u128, 1, 2, 3, 4, 7, 12] {
+            // (2k+1) * 2^-53 = (2k+1) * 5^53 / 10^53
+            let frac = (2 * k + 1) * five53;
+            mids.push(format!("1.{frac:053}"));
+            mids.push(format!("0.{frac:053}e1"));
+        }
+        for m in &mids {
+            let (ip, fp) = match m.split_once('.') {
+                Some((i, f)) => (i.to_string(), f.to_string()),
+                None => (m.clone(), String::new()),
+            };
+            let (fp_digits, exp) = match fp.split_once('e') {
+                Some((f, e)) => (f.to_string(), format!("e{e}")),
+                None => (fp.clone(), String::new()),
+            };
+            // the tie itself, just above and just below it, with short and long tails
+            lits.push(format!("f{ip}.{fp_digits}{exp}"));
+            lits.push(format!("f{ip}.{fp_digits}0{exp}"));
+            lits.push(format!("f{ip}.{fp_digits}0000000001{exp}"));
+            lits.push(format!("f{ip}.{fp_digits}{}1{exp}", "0".repeat(40)));
+            lits.push(format!("f-{ip}.{fp_digits}{}1{exp}", "0".repeat(25)));
+            if fp_digits.is_empty() {
+                if let Ok(i) = ip.parse::<u128>() {
+                    lits.push(format!("f{}.9999999999{exp}", i - 1));
+                    lits.push(format!("f{}.{}9{exp}", i - 1, "9".repeat(40)));
+                    lits.push(format!("f{}.5{exp}", i - 1));
+                }
+            } else {
+                // below the tie: last digit of the exact expansion lowered by one, followed by nines
+                let mut below = fp_digits.clone();
+                if let Some(last) = below.pop() {
+                    let d = last.to_digit(10).unwrap_or(5);
+                    if d > 0 {
+                        below.push(char::from_digit(d - 1, 10).unwrap());
+                        lits.push(format!("f{ip}.{below}{}{exp}", "9".repeat(30)));
+                        lits.push(format!("f{ip}.{below}9{exp}"));
+                    }
+                }
+            }
+        }
+    }
     // plain spellings
     for m in 0..1000usize {
         lits.push(format!("f{m}"));
